@@ -291,3 +291,77 @@ func (Empty) ReadDir(name string) ([]fs.FileInfo, error) {
 func (Empty) Stat(name string) (fs.FileInfo, error) {
 	return nil, &fs.PathError{Op: "stat", Path: name, Err: fs.ErrNotExist}
 }
+
+// Static is a stateless, read-only simulated disk: a fixed set of files, no
+// faults, no access log, nothing written after construction.  Tasks of the
+// scheduler driver (C19) may share one.
+type Static struct {
+	files map[string]string
+	dirs  map[string][]fs.FileInfo // directory -> name-sorted entries
+}
+
+// NewStatic returns a read-only disk holding files (path -> content).
+func NewStatic(files map[string]string) *Static {
+	s := &Static{files: map[string]string{}, dirs: map[string][]fs.FileInfo{}}
+	ents := map[string]map[string]info{}
+	put := func(dir string, i info) {
+		if ents[dir] == nil {
+			ents[dir] = map[string]info{}
+		}
+		ents[dir][i.name] = i
+	}
+	for k, v := range files {
+		p := Clean(k)
+		s.files[p] = v
+		put(path.Dir(p), info{name: path.Base(p), size: int64(len(v))})
+		for d := path.Dir(p); d != "."; d = path.Dir(d) {
+			put(path.Dir(d), info{name: path.Base(d), dir: true})
+		}
+	}
+	if ents["."] == nil {
+		ents["."] = map[string]info{}
+	}
+	for d, m := range ents {
+		names := make([]string, 0, len(m))
+		for n := range m {
+			names = append(names, n)
+		}
+		sort.Strings(names)
+		for _, n := range names {
+			s.dirs[d] = append(s.dirs[d], m[n])
+		}
+		if s.dirs[d] == nil {
+			s.dirs[d] = []fs.FileInfo{}
+		}
+	}
+	return s
+}
+
+func (s *Static) ReadFile(name string) ([]byte, error) {
+	if c, ok := s.files[Clean(name)]; ok {
+		return []byte(c), nil
+	}
+	return nil, &fs.PathError{Op: "open", Path: name, Err: fs.ErrNotExist}
+}
+
+func (s *Static) ReadDir(name string) ([]fs.FileInfo, error) {
+	p := Clean(name)
+	if l, ok := s.dirs[p]; ok {
+		return append([]fs.FileInfo(nil), l...), nil
+	}
+	if _, isFile := s.files[p]; isFile {
+		return nil, &fs.PathError{Op: "readdirent", Path: name, Err: errors.New("not a directory")}
+	}
+	return nil, &fs.PathError{Op: "open", Path: name, Err: os.ErrNotExist}
+}
+
+func (s *Static) Stat(name string) (fs.FileInfo, error) {
+	p := Clean(name)
+	if c, ok := s.files[p]; ok {
+		return info{name: path.Base(p), size: int64(len(c))}, nil
+	}
+	if _, ok := s.dirs[p]; ok {
+		return info{name: path.Base(p), dir: true}, nil
+	}
+	return nil, &fs.PathError{Op: "stat", Path: name, Err: fs.ErrNotExist}
+}
